@@ -121,18 +121,26 @@ Inductive op :=
 | Update (p : param) (v : value)     (* UpdateParameter(id_p, json v)        -> (true, nil)  *)
 | BadUpdate (p : param)              (* UpdateParameter(id_p, malformed json) -> (false, err) *)
 | Get (p : param)                    (* ParameterData(id_p) *)
-| Artifact (f : list param).         (* Artifact(name); f = the parameters the producer's text lists, in order *)
+| Artifact (f : list param)          (* Artifact(name); f = the parameters the producer's text lists, in order *)
+| ArtifactP (f : list param) (bad : list (param * value)).
+                                     (* a producer with nodes whose processor PANICS: [bad] = the (parameter, value)
+                                        pairs for which evaluation panics; the call then has no artifact *)
 
 Inductive resp :=
 | RUpd (ok : bool)
 | RGet (v : value)
 | RArt (vs : list value)
-| RFail.                             (* implementation panicked / unparsable output: never a sequential response *)
+| RPanic                             (* the producer's evaluation panicked (recovered by the caller) *)
+| RFail.                             (* unexpected panic / hang / unparsable output: never a sequential response *)
 
 Record state := mkstate { st_vals : param -> value; st_ver : N }.
 
 Definition upd (f : param -> value) (p : param) (v : value) : param -> value :=
   fun q => if Nat.eqb q p then v else f q.
+
+(* does some listed parameter currently have a value for which the evaluation panics? *)
+Definition panics (seen bad : list (param * value)) : bool :=
+  existsb (fun b => existsb (fun x => Nat.eqb (fst x) (fst b) && N.eqb (snd x) (snd b)) seen) bad.
 
 Definition seq_step (s : state) (o : op) : state * resp :=
   match o with
@@ -140,13 +148,15 @@ Definition seq_step (s : state) (o : op) : state * resp :=
   | BadUpdate p => (mkstate (st_vals s) (N.succ (st_ver s)), RUpd false)
   | Get p => (s, RGet (st_vals s p))
   | Artifact f => (s, RArt (map (st_vals s) f))
+  | ArtifactP f bad => (s, if panics (map (fun p => (p, st_vals s p)) f) bad then RPanic
+                           else RArt (map (st_vals s) f))
   end.
 
 Definition entry_name (o : op) : string :=
   match o with
   | Update _ _ | BadUpdate _ => "UpdateParameter"
   | Get _ => "ParameterData"
-  | Artifact _ => "Artifact"
+  | Artifact _ | ArtifactP _ _ => "Artifact"
   end%string.
 
 (* is the body of the entry point serving [o] inside Lock/Unlock according to the facts? *)
@@ -166,7 +176,7 @@ Definition body (o : op) : list mstep :=
   | Update p v => [MWrite p v; MVerLoad; MVerStore]
   | BadUpdate p => [MVerLoad; MVerStore]
   | Get p => [MRead p]
-  | Artifact f => map MRead f
+  | Artifact f | ArtifactP f _ => map MRead f
   end.
 
 Definition call_prog (g : bool) (o : op) : list mstep :=
@@ -178,6 +188,7 @@ Definition result (o : op) (acc : list value) : resp :=
   | BadUpdate _ => RUpd false
   | Get _ => RGet (hd 0%N acc)
   | Artifact _ => RArt acc
+  | ArtifactP f bad => if panics (combine f acc) bad then RPanic else RArt acc
   end.
 
 (* effect of a non-lock micro step on (shared values, shared version, local accumulator, local temp) *)
@@ -325,12 +336,13 @@ Definition resp_eqb (a b : resp) : bool :=
   | RUpd x, RUpd y => Bool.eqb x y
   | RGet x, RGet y => N.eqb x y
   | RArt x, RArt y => list_eqb N.eqb x y
+  | RPanic, RPanic => true
   | RFail, RFail => true
   | _, _ => false
   end.
 
 Definition readonly (o : op) : bool :=
-  match o with Get _ | Artifact _ => true | _ => false end.
+  match o with Get _ | Artifact _ | ArtifactP _ _ => true | _ => false end.
 
 (* all ways to take one element out of a list *)
 Fixpoint picks {A} (l : list A) : list (A * list A) :=
